@@ -58,6 +58,49 @@ def gen(tier, rng):
 LINES = {}
 
 
+def _file_data(dump, key):
+    """(is a regular file entry with exactly this key, its stored data in hex) in a raw implementation line"""
+    if ' ## ' not in dump:
+        return None, ''
+    isf, dat = None, ''
+    for r in dump.split(' ## ', 1)[1].split('|'):
+        q = r.split(' ')
+        if r.startswith('E ') and q[1] == key:
+            isf = ' d=0 ' in r + ' ' and ' l=0 ' in r + ' '
+        elif r.startswith('F ') and q[1] == key:
+            dat = q[2][len('data='):]
+    return isf, dat
+
+
+def _handle_judge(req, impl, prev):
+    """byte-vector reference for ONE open write/append handle on a plainly spelled regular file: at every flush and at drop the
+    stored bytes are exactly (bytes before the open, for append) + bytes written through the handle (property text of C06/C07).
+    Any other state-changing call while the handle is open drops the bookkeeping (no verdict)."""
+    t = req.split(' ')
+    io = impl.split(' ## ')[0]
+    hs = LINES.setdefault('handles', {})
+    if t[0] in ('h_write', 'h_append'):
+        hs.clear()
+        key = t[2][1:]
+        isf, _ = _file_data(impl, key)
+        if io.startswith('ok') and isf:
+            _, pre = _file_data(prev, key)
+            hs[t[1]] = dict(key=key, buf=pre if t[0] == 'h_append' else '')
+    elif t[0] == 'h_put' and t[1] in hs:
+        if io.startswith('ok'):
+            hs[t[1]]['buf'] += t[2][1:]
+        else:
+            hs.clear()
+    elif t[0] in ('h_flush', 'h_drop') and t[1] in hs:
+        h = hs[t[1]] if t[0] == 'h_flush' else hs.pop(t[1])
+        isf, dat = _file_data(impl, h['key'])
+        if io.startswith('ok') and isf and dat != h['buf']:
+            return ('data=' + h['buf'], f'after {t[0]} the file does not hold exactly the bytes written through the handle')
+    elif t[0] not in ('cwd', 'read', 'read_all', 'exists', 'is_file'):
+        hs.clear()
+    return None
+
+
 def judge(req, impl, f, prev, hi=None, i=None):
     if LINES.get('hi') != hi:
         LINES.clear()
@@ -65,6 +108,9 @@ def judge(req, impl, f, prev, hi=None, i=None):
     j = c01.judge(req, impl, f, prev)
     if j:
         return j
+    hj = _handle_judge(req, impl, prev)
+    if hj:
+        return hj
     # read_lines(write_lines(ls)) == ls for non-empty lines without terminators (script histories)
     t = req.split(' ')
     io = impl.split(' ## ')[0]
@@ -88,7 +134,7 @@ SPEC = dict(
     rule='content-heavy random histories over a handful of files: write_all / append_all / write_lines / append_line(s) / handle write+append with flushes and drops at arbitrary points / copy / move_p / reads, '
          'data from {empty, ASCII, multi-byte, invalid UTF-8, embedded \\n and \\r\\n, 2 KiB}; judge = byte-vector reference (TreeFs node data): write replaces, append extends, line helpers add one newline per line, '
          'other files untouched, copies independent; plus read_lines(write_lines(ls)) == ls scripts. distinct = distinct (pre-state, call) pairs',
-    assumptions=['Memfs only; Stdfs content semantics belong to C02', 'handle-based ops are compared with the Lean model (correspondence) and with C07 theorems, the reference tree filesystem does not model open handles'],
+    assumptions=['Memfs only; Stdfs content semantics belong to C02', 'handle-based ops are compared with the Lean model (correspondence) and with C07 theorems; the reference tree filesystem does not model open handles, so the judge keeps its own byte-vector reference for one open write/append handle on a plainly spelled regular file (stored bytes at flush/drop = bytes before the open for append + bytes written); other calls while a handle is open get no handle verdict'],
     trusted_base=['hand transcription Rust->Lean of the Memfs backend (checked by the correspondence run)', 'reference tree filesystem Rivia/Spec/TreeFs.lean', 'Rust harness + Python driver'],
 )
 
